@@ -1,4 +1,4 @@
-"""C04: sort key components, dedup key, settings defaults, fingerprints."""
+"""C04: sort key components, dedup key, case-folding statements of filter_names, settings defaults, fingerprints."""
 import ast
 from translator.extract import Src, TieBroken, u, lean_list, lean_bool
 
@@ -49,6 +49,49 @@ def generate(repo, g):
         fields.append(e.attr)
     g.define('dedupKeyFields', 'List String', lean_list(fields),
              'jedi/api/completion.py:filter_names k = (...)')
+    # folding statements of filter_names:
+    #   like_name_length = len(like_name)
+    #   if settings.case_insensitive_completion: like_name = like_name.<m>()
+    #   for name in completion_names: ... if settings.case_insensitive_completion: string = string.<m>()
+    KNOWN_FOLDS = ('lower', 'casefold', 'upper')
+
+    def fold_stmt(stmts, var, where):
+        """index and method of `if settings.case_insensitive_completion: var = var.<m>()`"""
+        hits = []
+        for i, st in enumerate(stmts):
+            if isinstance(st, ast.If) and u(st.test) == 'settings.case_insensitive_completion':
+                if st.orelse or len(st.body) != 1 or not isinstance(st.body[0], ast.Assign):
+                    raise TieBroken('completion.py: filter_names: unknown case-folding block', u(st))
+                a = st.body[0]
+                v = a.value
+                if not (u(a.targets[0]) == var and isinstance(v, ast.Call) and not v.args and not v.keywords
+                        and isinstance(v.func, ast.Attribute) and u(v.func.value) == var):
+                    raise TieBroken('completion.py: filter_names: unknown case-folding assignment', u(a))
+                if v.func.attr not in KNOWN_FOLDS:
+                    raise TieBroken('completion.py: filter_names folds with an unknown str method', u(a))
+                hits.append((i, v.func.attr))
+        if len(hits) != 1:
+            raise TieBroken('completion.py: filter_names: %d case-folding blocks for %s in %s'
+                            % (len(hits), var, where))
+        return hits[0]
+
+    i_fold, m_like = fold_stmt(fn.body, 'like_name', 'the function body')
+    loops = [st for st in fn.body if isinstance(st, ast.For)]
+    if len(loops) != 1 or u(loops[0].iter) != 'completion_names':
+        raise TieBroken('completion.py: filter_names: loop over completion_names not found')
+    _i, m_name = fold_stmt(loops[0].body, 'string', 'the loop body')
+    lens = [i for i, st in enumerate(fn.body) if isinstance(st, ast.Assign)
+            and u(st.targets[0]) == 'like_name_length']
+    if len(lens) != 1 or u(fn.body[lens[0]].value) != 'len(like_name)':
+        raise TieBroken('completion.py: filter_names: like_name_length = len(like_name) not found')
+    # every other use of a str case method in filter_names would be outside the model
+    others = [u(n) for n in ast.walk(fn) if isinstance(n, ast.Attribute) and n.attr in KNOWN_FOLDS + ('swapcase', 'title', 'capitalize')]
+    if len(others) != 2:
+        raise TieBroken('completion.py: filter_names uses case methods outside the two folding statements', repr(others))
+    g.define('foldLikeMethod', 'String', '"%s"' % m_like, 'jedi/api/completion.py:filter_names like_name = like_name.<m>()')
+    g.define('foldNameMethod', 'String', '"%s"' % m_name, 'jedi/api/completion.py:filter_names string = string.<m>()')
+    g.define('lengthBeforeFold', 'Bool', lean_bool(lens[0] < i_fold),
+             'jedi/api/completion.py:filter_names like_name_length = len(like_name) stands before the fold')
     g.define('caseInsensitiveDefault', 'Bool', lean_bool(settings.const('case_insensitive_completion')),
              'jedi/settings.py')
     g.define('addBracketDefault', 'Bool', lean_bool(settings.const('add_bracket_after_function')),
